@@ -58,6 +58,9 @@ fn main() {
                 let kf = report::KnownFindings::load();
                 let mut run = report::Run::new(p, tier, "chessx");
                 chessx::run_jobs(&mut run, &kf, p, chessx::plan(p, tier), if tier == "quick" { 120 } else { 1800 }, p);
+                if p == "C09" {
+                    loom_supplement(&mut run, &kf, tier);
+                }
                 run.cov("rule", serde_json::json!("stateless depth-first exploration of all schedules of each small multi-thread program with at most the stated number of pre-emptions, on the real code under a controlling scheduler; an execution is one complete schedule; distinct = distinct (program, thread observations, deadlock) outcomes"));
                 run.finish()
             }
@@ -170,11 +173,60 @@ fn replay(file: &str) -> i32 {
         "crashx" => rawx_run::replay_crash(&doc),
         // the enumerating engines re-run their (deterministic) enumeration and report whether
         // the recorded signature occurs again
-        "codecx" | "eagerx" | "importx" | "lazyx" | "openx" | "versionx" | "bigscan" | "valuex" => replay_by_rerun(&doc),
+        "codecx" | "eagerx" | "importx" | "lazyx" | "openx" | "versionx" | "bigscan" | "valuex" | "loom" => replay_by_rerun(&doc),
         e => {
             eprintln!("unknown engine {e}");
             2
         }
+    }
+}
+
+/// C09 supplement: the loom model of the `SharedLen` publication protocol (harness/loomsl,
+/// built from the repository's own source file) — the C11 memory-model side that the
+/// sequentially consistent scheduler of chessx cannot see.
+fn loom_supplement(run: &mut report::Run, kf: &report::KnownFindings, tier: &str) {
+    let exe = std::env::current_exe().expect("current_exe").with_file_name("loomsl");
+    let out = match std::process::Command::new(&exe).arg(tier).output() {
+        Ok(o) => o,
+        Err(e) => {
+            run.machinery_errors.push(format!("cannot run {}: {e}", exe.display()));
+            return;
+        }
+    };
+    let text = String::from_utf8_lossy(&out.stdout).to_string();
+    let line = text.lines().find(|l| l.starts_with("LOOM ")).unwrap_or("").to_string();
+    let execs: u64 = line.split("executions=").nth(1).and_then(|s| s.split(' ').next()).and_then(|s| s.parse().ok()).unwrap_or(0);
+    eprintln!("  [loom shared_len] {line}");
+    if line.is_empty() {
+        run.machinery_errors.push(format!("loomsl produced no verdict (exit {:?})", out.status.code()));
+        return;
+    }
+    run.cov_add("traces_validated_against_impl", execs);
+    run.cov_add("evaluations", execs);
+    let mut e = run.coverage.remove("explorations").unwrap_or_else(|| serde_json::json!([]));
+    e.as_array_mut().unwrap().push(serde_json::json!({
+        "label": "loom/shared_len",
+        "what": "loom (C11 memory model, all executions) over writer {fill slot i; SharedLen::set(i+1)} x rounds against readers {n = SharedLen::get(); read slots below n}; slots are loom UnsafeCells, so a read without a happens-before edge to the write is reported; SharedLen is compiled from /repo's own shared_len/mod.rs with std::sync switched to loom::sync",
+        "executions": execs,
+        "verdict_line": line,
+    }));
+    run.cov("explorations", e);
+    if let Some(msg) = line.split("result=violation: ").nth(1) {
+        let v = seqx::Violation {
+            property: "C09".into(),
+            signature: format!("loom|shared_len|{}", msg.split(':').next().unwrap_or("").trim()),
+            detail: format!("loom model of the SharedLen publication protocol: {msg}"),
+        };
+        let d = kf.classifier("C09")(&v);
+        run.add_found(
+            seqx::Found {
+                path: vec![],
+                shown: vec!["writer: slot[i] = v; SharedLen::set(i + 1)  ||  reader: n = SharedLen::get(); read slot[..n]".into()],
+                violation: v,
+                known: d == seqx::Disposition::Known,
+            },
+            serde_json::json!({"engine": "loom"}),
+        );
     }
 }
 
